@@ -27,7 +27,7 @@ RULE = ("pool: hand-written near-collisions (same items in different containers,
         "non-trivial = the two hashes are equal or the values have the same type; distinct = distinct (mode, canonical pair)")
 TRUSTED = [
     "Section hypotheses H_tok (hasher outputs non-empty, free of , ; : | { }) and H_inj (hasher injective) stand for SHA-256 hexdigest being "
-    "collision-free; they are hypotheses (explicit premises) of the theorems, not axioms; proved consistent by the instance unary_hash, not proved for the hex hasher of the correspondence check",
+    "collision-free; they are hypotheses (explicit premises) of the theorems, not axioms; proved for the hex hasher of the correspondence check on strings of code points < 0x110000 (HexHash.v: C07_hexhash_satisfies_hypotheses, and the hypothesis-free corollaries C07_*_hexhash_partial); for SHA-256 they remain assumptions",
     "bytes are modelled for ASCII content only; floats are half-integers with positional repr",
     "cyclic / shared mutable containers, custom objects, numpy, Decimal, datetime, exclude/include paths are outside the model",
 ]
